@@ -168,6 +168,31 @@ pub fn eval(ctx: &Ctx, op: &str, a: &[&str]) -> Option<String> {
             let o = cli::run_sfs(&ctx.sfs_bin, &args, &parse_hex(a[2]));
             Some(cli_render(&o))
         }
+        // writing to a device that fails every write:  io.devfull cmd args shape bits   (`-o /dev/full`)
+        "io.devfull" => {
+            let input = crate::npy::write_f8(&parse_nats(a[2]), &parse_bits(a[3]));
+            let mut args = vec![a[0].to_string()]; args.extend(fmt_args(a[1]));
+            args.push("-o".into()); args.push("/dev/full".into());
+            if !std::path::Path::new("/dev/full").exists() { return Some("NO-DEV-FULL".into()); }
+            Some(cli_render(&cli::run_sfs(&ctx.sfs_bin, &args, &input)))
+        }
+        // history of an output path: write a long result to PATH, then a shorter one to the same PATH, read PATH back
+        //   io.overwrite fmt p shape1 bits1 shape2 bits2
+        "io.overwrite" => {
+            let path = tmp_path(ctx, a, "over");
+            let mut last = None;
+            for (sh, bs) in [(a[2], a[3]), (a[4], a[5])] {
+                let input = crate::npy::write_f8(&parse_nats(sh), &parse_bits(bs));
+                let args = vec!["view".to_string(), "-O".into(), a[0].to_string(), "--precision".into(), a[1].to_string(), "-o".into(), path.clone()];
+                let o = cli::run_sfs(&ctx.sfs_bin, &args, &input);
+                if cli::class(&o) != "OK" { let _ = std::fs::remove_file(&path); return Some(format!("WRITE {}", cli_render(&o))); }
+                last = Some(std::fs::read(&path).unwrap_or_default());
+            }
+            let content = last?;
+            let o = cli::run_sfs(&ctx.sfs_bin, &["view".to_string(), "-O".into(), "npy".into(), path.clone()], &[]);
+            let _ = std::fs::remove_file(&path);
+            Some(format!("FILE {}|{}", hex(&content), cli_render(&o)))
+        }
         // two-stage: `sfs view <stage1 args>` on an npy input carrying the exact bits, to a pipe or a file, then stage 2 reads it
         //   io.pipe stage1args transport stage2cmd stage2args shape bits
         "io.pipe" => {
@@ -346,6 +371,13 @@ pub fn gen_c07(ctx: &Ctx, rng: &mut Rng, out: &mut Vec<String>) {
         for (fmt, transport, cmd2, args2) in [("npy", "pipe", "view", "-O npy"), ("npy", "file", "view", "-O npy"), ("text", "pipe", "view", "-O npy"), ("npy", "pipe", "stat", "-s sum --precision 17")] {
             out.push(format!("io.pipe\t-O {fmt} --precision 6\t{transport}\t{cmd2}\t{args2}\t{side},{side}\t{}", bits(&data)));
         }
+    }
+    // an output path that already holds a longer file: the second, shorter result must replace it completely
+    for i in 0..(if t { 40 } else { 8 }) {
+        let (s1, d1) = { let sh = shapes::random_shape(rng, 2, 3, 3, 5, 200); let n: usize = sh.iter().product(); (sh, (0..n).map(|_| finite_value(rng)).collect::<Vec<f64>>()) };
+        let (s2, d2) = { let sh = shapes::random_shape(rng, 1, 2, 1, 3, 9); let n: usize = sh.iter().product(); (sh, (0..n).map(|_| finite_value(rng)).collect::<Vec<f64>>()) };
+        let fmt = if i % 2 == 0 { "text" } else { "npy" };
+        out.push(format!("io.overwrite\t{fmt}\t{}\t{}\t{}\t{}\t{}", rng.range(0, 9), nats(&s1), bits(&d1), nats(&s2), bits(&d2)));
     }
     // (e) text -> npy -> text at the same precision
     for _ in 0..(if t { 300 } else { 40 }) {
@@ -612,6 +644,33 @@ pub fn gen_c18(ctx: &Ctx, rng: &mut Rng, out: &mut Vec<String>) {
             for acc in 1..=7usize { out.push(format!("io.wr\t{fmt}\t{}\t{}\t{p}\t{}\tN", nats(shape), bits(data), nats(&vec![acc; total + 2]))); }
             out.push(format!("io.wr\t{fmt}\t{}\t{}\t{p}\t{}\tN", nats(shape), bits(data), nats(&sched(rng, total))));
             for k in 0..=total + 1 { if t || fi < 3 || k % 3 == 0 { out.push(format!("io.wr\t{fmt}\t{}\t{}\t{p}\t{}\t{k}", nats(shape), bits(data), nats(&sched(rng, total)))); } }
+        }
+    }
+    // output to a path on a device that fails every write (`-o /dev/full`): small outputs (inside any buffer) and larger ones
+    for (si, side) in [1usize, 2, 3, 8, 40, 70].into_iter().enumerate() {
+        let n = side * side;
+        let data: Vec<f64> = (0..n).map(|j| (j % 11) as f64).collect();
+        for (cmd, args) in [("view", "-O text"), ("view", "-O npy"), ("fold", "--fill zero")] {
+            if !t && si % 2 == 1 && cmd == "fold" { continue; }
+            out.push(format!("io.devfull\t{cmd}\t{args}\t{side},{side}\t{}", bits(&data)));
+        }
+    }
+    // a call set larger than the 64 KiB detection prefix: chunk boundaries before, at and after offset 65536
+    {
+        let ncols = 4usize;
+        let nrec = if t { 6000 } else { 2500 };
+        let mut g = crate::creategen::Gen { rng: &mut *rng };
+        let assign: Vec<Option<usize>> = vec![Some(0), Some(1), Some(0), None];
+        let mut recs = Vec::new();
+        for r in 0..nrec { recs.push((format!("chr{}", 1 + r * 3 / nrec), 100 + 3 * r, crate::creategen::record(&mut g, &assign, [85, 10, 5, 0], false, false))); }
+        let recs_s = crate::creategen::records_str(&recs);
+        let colss = crate::creategen::cols(ncols).join(",");
+        for container in ["vcf", "rawbcf", "bcf", "vcfgz"] {
+            let base = format!("io.geno\t{container}\t0\t0\t{colss}\ts:s0=A,s1=B,s2=A\tN\t{recs_s}");
+            for sc in [vec![], vec![65536], vec![65535], vec![65537], vec![1], vec![27, 65509], vec![8192; 40], vec![4096, 61440, 1], vec![100000], vec![70000, 5], vec![65536, 1, 1, 1], vec![30000, 30000, 30000]] {
+                out.push(format!("{base}\t{}\tN", nats(&sc)));
+            }
+            for pm in [100usize, 500, 900, 999, 1000] { out.push(format!("{base}\t{}\t{pm}", nats(&[50000usize, 50000]))); }
         }
     }
     // genotype reader over chunk-scheduled streams: vcf / vcf.gz / bcf / raw bcf
